@@ -22,11 +22,11 @@ func verifC14Instant(name string) (time.Time, int64, int64) {
 func VerifC14ExpiredGroups() {
 	end, es, en := verifC14Instant("end")
 	now, ts, tn := verifC14Instant("now")
-	dsec := verifrt.Int64("durSec")
-	dns := verifrt.Int64("durNsec")
-	verifrt.Assume(dsec >= 0 && dsec <= 1<<32)
-	verifrt.Assume(dns >= 0 && dns < 1000000000)
-	dur := time.Duration(dsec*1000000000 + dns)
+	// one arbitrary non-negative int64 of nanoseconds (up to 292 years), split into seconds and nanoseconds for the expected answer
+	d := verifrt.Int64("dur")
+	verifrt.Assume(d >= 0)
+	dur := time.Duration(d)
+	dsec, dns := d/1000000000, d%1000000000
 	rpi := &RetentionPolicyInfo{Name: "rp", Duration: dur, ShardGroups: []ShardGroupInfo{{ID: 1, EndTime: end}}}
 	got := len(rpi.ExpiredShardGroups(now)) == 1
 
